@@ -262,6 +262,27 @@ def run(pid, tier):
             chk.model_violation("StoreAges N=%d" % n, r)
         vlib.require_ok(r, "StoreAges")
         chk.add_model("StoreAges", r, "N=%d, relative ages: run histories of every length" % n)
+    if tier == "thorough":
+        # unbounded histories, N in 2..5: an inductive invariant discharged by Apalache (Init => IndInv,
+        # IndInv /\ Next => IndInv', IndInv => PointerNamesLatestCompleted)
+        import tempfile, shutil, subprocess
+        out = tempfile.mkdtemp(prefix="apalache-")
+        obligations = [("--init=Init", "--inv=IndInv", "--length=0"), ("--init=IndInit", "--inv=IndInv", "--length=1"),
+                       ("--init=IndInit", "--inv=PointerNamesLatestCompleted", "--length=0")]
+        done = 0
+        for o in obligations:
+            pr = subprocess.run(["timeout", "900", "apalache-mc", "check", "--cinit=ConstInit", "--out-dir=" + out] + list(o) +
+                                [os.path.join(vlib.SPEC, "apalache", "StoreInd.tla")], stdout=subprocess.PIPE, stderr=subprocess.STDOUT, text=True)
+            if "EXITCODE: OK" in pr.stdout:
+                done += 1
+            elif "violat" in pr.stdout:
+                shutil.rmtree(out, ignore_errors=True)
+                raise vlib.ToolError("Apalache: inductive invariant obligation %s failed on the model" % (o,))
+            else:
+                chk.notes.append({"apalache": "obligation %s could not be run: %s" % (o, pr.stdout[-200:])})
+        shutil.rmtree(out, ignore_errors=True)
+        chk.cov["apalache_inductive_obligations"] = len(obligations)
+        chk.cov["apalache_inductive_discharged"] = done
     hs = histories(chk, tier, rng, pid)
     def one(ih):
         i, (n, h) = ih
